@@ -207,6 +207,9 @@ pub fn draw_counts(cx: &mut Cx) {
     let calls = if cx.thorough { 1500usize } else { 600 };
     let node = cx.node("sweeper");
     cx.count("probe.random_draw_count_volume");
+    #[cfg(not(feature = "library-helpers"))]
+    { let _ = (calls, node); cx.count("probe.skipped_library_helper_signature_changed"); cx.log("draw-count run skipped: the engine was built without the library-helpers feature".into()); return; }
+    #[cfg(feature = "library-helpers")]
     cx.step(node, "draw-counts", StepOpts::default(), move || {
         use zkryptium::utils::util::bbsplus_utils::calculate_random_scalars;
         (0..calls).filter(|_| calculate_random_scalars(2000).len() != 2000).count()
